@@ -4,7 +4,7 @@ from sim import hh2sim
 
 PROPERTY = 'C20'
 LEVEL = 'exploration'
-ENGINE = 'L1-sessions'
+ENGINE = 'L1-hh2sim'
 COMPONENTS_REAL = [
     'src/h_h2_error_estimator.py: HH2ErrorEstimator.estimate (serial and '
     'pool)', 'src/hierarchical_error_estimator.py: DummyElement.'
